@@ -85,14 +85,18 @@ static mjSpec* scene_spec(uint64_t seed, int nb) {
     (void)before;
   }
   mjsBody** bodies = (mjsBody**)calloc(nb + 8, sizeof(mjsBody*));
+  // static and mocap bodies (possibly carrying planes) are declared before OR after the moving bodies: the order decides which
+  // geom of a candidate pair comes first
+  int first_moving = 0, static_late = mjg_chance(r, 0.5), mocap_late = mjg_chance(r, 0.5);
+  for (int pass = 0; pass < 2; pass++) {
   // static child body of the world (weld id 0), possibly with a plane
-  if (mjg_chance(r, 0.5)) {
+  if (static_late == pass && mjg_chance(r, 0.6)) {
     mjsBody* sb = mjs_addBody(world, NULL); bname(nm, nbody); mjs_setName(sb->element, nm); bodies[nbody++] = sb;
     for (int i = 0; i < 3; i++) sb->pos[i] = mjg_range(r, -side, side);
     add_geoms(r, sb, 1 + mjg_int(r, 3), &ngeom, mjg_chance(r, 0.5), sz);
   }
   // mocap body
-  if (mjg_chance(r, 0.5)) {
+  if (mocap_late == pass && mjg_chance(r, 0.6)) {
     mjsBody* mb = mjs_addBody(world, NULL); bname(nm, nbody); mjs_setName(mb->element, nm); bodies[nbody++] = mb;
     mb->mocap = 1;
     for (int i = 0; i < 3; i++) mb->pos[i] = mjg_range(r, -side, side);
@@ -103,7 +107,8 @@ static mjSpec* scene_spec(uint64_t seed, int nb) {
       add_geoms(r, mc, 1, &ngeom, 0, sz);
     }
   }
-  int first_moving = nbody;
+    if (pass == 0) {
+    first_moving = nbody;
   for (int b = 0; b < nb; b++) {
     mjsBody* parent = world; int root = 1;
     if (b > 0 && mjg_chance(r, 0.45)) { parent = bodies[first_moving + mjg_int(r, b)]; root = 0; }
@@ -122,6 +127,8 @@ static mjSpec* scene_spec(uint64_t seed, int nb) {
     add_geoms(r, body, ng, &ngeom, 0, sz);
     if (mjg_chance(r, 0.25)) random_inertial(r, body);
     // mass for welded/any bodies comes from geoms (density default)
+  }
+    }
   }
   // explicit pairs
   int np = mjg_chance(r, 0.6) ? mjg_int(r, 4) : 0;
@@ -153,6 +160,22 @@ static void random_inertial(mjg_rng* r, mjsBody* b) {
   mjg_quat(r, b->iquat);
 }
 
+// a jointless (static) or mocap body carrying a plane (and sometimes a box), placed near the given point
+static void add_plane_body(mjg_rng* r, mjsBody* world, int mocap, const double at[3], int* ngeom, int* nbody_names) {
+  char nm[32];
+  mjsBody* pb = mjs_addBody(world, NULL); snprintf(nm, 32, "pb%d", (*nbody_names)++); mjs_setName(pb->element, nm);
+  pb->mocap = mocap;
+  for (int i = 0; i < 3; i++) pb->pos[i] = at[i] + mjg_range(r, -0.3, 0.3);
+  mjsGeom* g = mjs_addGeom(pb, NULL); gname(nm, (*ngeom)++); mjs_setName(g->element, nm);
+  g->type = mjGEOM_PLANE; g->size[0] = g->size[1] = 1; g->size[2] = 0.1;
+  if (mjg_chance(r, 0.8)) mjg_quat(r, g->quat);
+  if (mjg_chance(r, 0.4)) g->margin = mjg_range(r, 0.02, 0.2);
+  if (mjg_chance(r, 0.3)) {
+    mjsGeom* g2 = mjs_addGeom(pb, NULL); gname(nm, (*ngeom)++); mjs_setName(g2->element, nm);
+    g2->type = mjGEOM_BOX; for (int i = 0; i < 3; i++) { g2->size[i] = mjg_range(r, 0.05, 0.2); g2->pos[i] = mjg_range(r, -0.3, 0.3); }
+  }
+}
+
 // "margin" scenes (nb < 0): free multi-geom bodies whose geoms carry large margins / gaps, placed so that the surface
 // distance between a geom of the new body and a geom of an earlier body is f * (sum of their margins and gaps), f in
 // [-0.6, 1.2]: many geom pairs are separated but within margin, others just outside; no state perturbation afterwards
@@ -169,6 +192,8 @@ static mjSpec* margin_spec(uint64_t seed, int nb) {
     g->type = mjGEOM_BOX; g->size[0] = g->size[1] = 0.3; g->size[2] = 0.1; g->pos[2] = -0.6;
     g->margin = mjg_chance(r, 0.7) ? mjg_range(r, 0.03, 0.3) : 0;
   }
+  int npb = 0; const double origin[3] = {0, 0, 0};
+  if (mjg_chance(r, 0.25)) add_plane_body(r, world, mjg_chance(r, 0.5), origin, &ngeom, &npb);      // plane body BEFORE the moving bodies
   for (int b = 0; b < nb; b++) {
     mjsBody* body = mjs_addBody(world, NULL); bname(nm, b); mjs_setName(body->element, nm);
     mjsJoint* j = mjs_addJoint(body, NULL); j->type = mjJNT_FREE;
@@ -212,6 +237,9 @@ static mjSpec* margin_spec(uint64_t seed, int nb) {
       gr[ng_all] = lr[k]; gm[ng_all] = lm[k]; ng_all++;
     }
   }
+  // plane bodies (static, mocap) AFTER the moving bodies, through the cluster: the plane is then the second geom of its pairs
+  for (int k = 0; k < 2; k++)
+    if (mjg_chance(r, 0.5) && ng_all > 0) add_plane_body(r, world, k, gc[mjg_int(r, ng_all)], &ngeom, &npb);
   return s;
 }
 
@@ -238,6 +266,27 @@ static mjSpec* sweep_spec(int k) {
       ge->type = mjGEOM_SPHERE; ge->size[0] = 0.1; ge->margin = mg[b];
       if (ngs[b] == 2) ge->pos[2] = g ? 0.3 : -0.3;
     }
+  }
+  return s;
+}
+
+// fixed corpus scene (nb = -200): world box, three overlapping free spheres, a static and a mocap body (declared last) each
+// carrying a plane: before /repo 3ff575b68 the plane bodies were paired twice and mj_collision raised "broadphase buffer full"
+static mjSpec* bpfull_spec(void) {
+  mjSpec* s = mj_makeSpec(); s->memory = 1 << 26;
+  mjsBody* w = mjs_findBody(s, "world");
+  int ngeom = 0; char nm[32];
+  mjsGeom* g0 = mjs_addGeom(w, NULL); gname(nm, ngeom++); mjs_setName(g0->element, nm);
+  g0->type = mjGEOM_BOX; g0->size[0] = g0->size[1] = 1; g0->size[2] = 0.1; g0->pos[2] = -1;
+  for (int i = 0; i < 3; i++) {
+    mjsBody* b = mjs_addBody(w, NULL); bname(nm, i); mjs_setName(b->element, nm); b->pos[0] = 0.05 * i; b->pos[2] = 0.05;
+    mjsJoint* j = mjs_addJoint(b, NULL); j->type = mjJNT_FREE;
+    mjsGeom* g = mjs_addGeom(b, NULL); gname(nm, ngeom++); mjs_setName(g->element, nm); g->type = mjGEOM_SPHERE; g->size[0] = 0.1;
+  }
+  for (int k = 0; k < 2; k++) {
+    mjsBody* pb = mjs_addBody(w, NULL); bname(nm, 3 + k); mjs_setName(pb->element, nm); pb->mocap = k;
+    mjsGeom* g = mjs_addGeom(pb, NULL); gname(nm, ngeom++); mjs_setName(g->element, nm);
+    g->type = mjGEOM_PLANE; g->size[0] = g->size[1] = 1; g->size[2] = 0.1;
   }
   return s;
 }
@@ -284,6 +333,8 @@ static mjSpec* chain_spec(uint64_t seed) {
     }
     parent = mjg_chance(r, 0.7) ? tip : L;      // the next link hangs on the tool or on the link itself
   }
+  { int npb = 0; const double origin[3] = {0, 0, 0};
+    if (mjg_chance(r, 0.4)) add_plane_body(r, world, mjg_chance(r, 0.5), origin, &ngeom, &npb); }
   if (mjg_chance(r, 0.4) && nbody >= 2) {
     mjsExclude* e = mjs_addExclude(s);
     char n1[32], n2[32]; int a = mjg_int(r, nbody), b2 = (a + 1 + mjg_int(r, nbody - 1)) % nbody;
@@ -337,7 +388,7 @@ static int bp_frame(const mjModel* m, mjData* d, mjtNum frame[9]) {
 }
 
 static void run_scene(uint64_t seed, int nb, int dsbl, int enbl, double omargin) {
-  mjSpec* s = nb > 0 ? scene_spec(seed, nb) : nb == 0 ? chain_spec(seed) : nb > -100 ? margin_spec(seed, -nb) : sweep_spec(-nb - 100);   // nb = 0: chain scene, nb < 0: margin scene
+  mjSpec* s = nb > 0 ? scene_spec(seed, nb) : nb == 0 ? chain_spec(seed) : nb > -100 ? margin_spec(seed, -nb) : nb > -200 ? sweep_spec(-nb - 100) : bpfull_spec();   // nb = 0: chain scene, nb < 0: margin scene
   mjModel* m = mj_compile(s, NULL);
   if (!m) { { char eb[300]; snprintf(eb, sizeof(eb), "%s", mjs_getError(s)); for (char* q = eb; *q; q++) if (*q == '\n') *q = ' '; printf("SCENE fail %s\nEND\n", eb); } mj_deleteSpec(s); return; }
   m->opt.disableflags = dsbl; m->opt.enableflags = enbl; m->opt.o_margin = omargin;
@@ -418,7 +469,8 @@ static void run_scene(uint64_t seed, int nb, int dsbl, int enbl, double omargin)
     int nbf = m->nbody;
     int* bfid = (int*)malloc(sizeof(int) * (nbf + 1));
     int nc = 0;
-    for (int i = 1; i < nbf; i++) if (canCollide(m, i)) bfid[nc++] = i;
+    for (int i = 1; i < nbf; i++)      // the bodies mj_broadphase feeds to SAP (dof-less plane bodies are paired separately)
+      if (canCollide(m, i) && !(m->body_dofnum[m->body_weldid[i]] == 0 && hasPlane(m, i))) bfid[nc++] = i;
     int have = bp_frame(m, d, frame);
     printf("A %d", have ? nc : 0);
     if (have && nc > 1) {
